@@ -33,33 +33,21 @@ CFG_TRACE = """INIT TInit
 NEXT TNext
 """
 
-# rough relative cost of the model configurations, to balance the parallel TLC runs
-def _groups(configs, n):
-  weight = {}
-  for cid, c in configs.items():
-    a = max(1, len(c["alpha"]))
-    if c["mode"] == "dense":
-      w = a ** c["dense"]
-    elif c["mode"] == "ser":
-      w = 3000
-    elif c["gram"] in ("position", "extent", "area"):
-      w = a ** min(c["maxlen"], 4) * (4 if c["edits"] else 1)
-    else:
-      w = 4000 * (12 if c["edits"] else 2)
-    weight[cid] = w
+def _groups(configs, n, thorough):
+  """configuration ids split into n groups of similar cost (longest-processing-time first)"""
   groups = [[] for _ in range(n)]
   load = [0] * n
-  for cid in sorted(weight, key=lambda k: -weight[k]):
+  for cid in sorted(configs, key=lambda c: (-U.weight(c, thorough), c)):
     k = load.index(min(load))
     groups[k].append(cid)
-    load[k] += weight[cid]
+    load[k] += U.weight(cid, thorough)
   return [g for g in groups if g]
 
 
 def explore(ctx, configs, names, sermax):
   """Run LexMC on the configurations (in parallel TLC processes).
   Returns (strings, family lists): [(grammar, text, config id)], [list of families] - distinct, in a stable order."""
-  groups = _groups(configs, 4)
+  groups = _groups(configs, 4, ctx.thorough())
 
   def one(k):
     sub = {cid: configs[cid] for cid in groups[k]}
@@ -104,14 +92,15 @@ def validate(ctx, recs):
     res = T.run_tlc("Trace_Lex", CFG_TRACE, workers=1, env={"TRACE_FILE": "trace.ndjson"},
                     extra_files={"trace.ndjson": text}, timeout=6000 if ctx.thorough() else 900, name="lextrace",
                     java_opts=("-Xmx6g",))
-    done = res.values("DONE")
+    vals = res.values()                      # parse every printed line once
+    done = [v for v in vals if v[0] == "DONE"]
     if not done or done[0][1] != len(part):
       raise T.MachineryError("trace not consumed: " + res.out[-2000:])
-    bugs = res.values("SPECBUG")
+    bugs = [v for v in vals if v[0] == "SPECBUG"]
     if bugs:
       raise T.MachineryError("the two formulations of a grammar disagree on recorded strings: " +
                              "; ".join(repr((part[b[1] - 1]["g"], U.text_of(part[b[1] - 1]["s"]))) for b in bugs[:8]))
-    return res, [(off + f[1] - 1, f[2]) for f in res.values("FAIL")]
+    return res, [(off + f[1] - 1, f[2]) for f in vals if f[0] == "FAIL"]
 
   with ThreadPoolExecutor(max_workers=4) as ex:
     results = list(ex.map(one, chunks))
@@ -198,12 +187,21 @@ def run(ctx):
   # ---- TLC judges
   fails = validate(ctx, recs)
   ctx.traces = len(recs)
-  for idx, kind in fails:
+  # identical (clause, lexical description) cases are reported at most PER_SIGNATURE times; all are counted
+  PER_SIGNATURE = 4
+  signature_count = {}
+  for idx, kind in sorted(fails):
     gram, text, origin, c, acc, v = meta[idx]
     clause = "lex_%s_%s" % (gram, kind)
     feats = U.features(gram, text)
     feats["origin"] = origin.split(":")[0]
     feats["context"] = c
+    ctx.count("failing_cases", 1)
+    ctx.count("failing_" + clause, 1)
+    sig = (clause,) + tuple(sorted((k, str(x)) for k, x in feats.items() if k not in ("length", "families", "components")))
+    signature_count[sig] = signature_count.get(sig, 0) + 1
+    if signature_count[sig] > PER_SIGNATURE:
+      continue
     if recs[idx]["kind"] == "ser":
       feats["ser"] = True
       feats["families_in"] = [[f[0], U.text_of(f[1])] for f in recs[idx]["fams"]]
